@@ -121,11 +121,19 @@ PROPS["C16"] = dict(streams=[REWARDS, CREWARDS], rule=PROV_RULE + "; crewards st
     fields=r"^begin\.(pool|distr|cp|reward-effects)|^c\d+\.alloc|^reward\.|^cons\.(fc|redis|tosend|escrow|ltbh|transfers)")
 
 EVIDENCE = dict(name="evidence", quick=(6, 700), thorough=(28, 4000))
-PROPS["C07"] = dict(streams=[EVIDENCE], rule=PROV_RULE + "; evidence stream: REAL ed25519-signed duplicate votes submitted through MsgSubmitConsumerDoubleVoting.ValidateBasic and the msg server: mostly valid evidence of a validator's current consumer key, with single-field mutations (other chain id incl. the provider's and another consumer's, vote B with other height / round / type / validator, tampered signature on A or B, forged address, signed by another key, identical block ids, reversed order, nil block, invalid vote type), keys a validator uses on other consumers or has replaced, heights around the consumer's minimum evidence height, unknown / unlaunched / deleted consumers, consumers sharing a chain id with different double-sign settings (tombstone on and off), headers whose validator set lacks the signer / is empty / nil, replays of the previous submission, unbonding delegations and redelegations (matured, maturing now, future, on hold), jailed / tombstoned / unbonding / removed validators",
+PROPS["C07"] = dict(streams=[EVIDENCE], rule=PROV_RULE + "; evidence stream: REAL conflicting signed headers (light-client attacks) checked by the REAL 07-tendermint light client module on a real client store and then by GetByzantineValidators and the punishment loop: mostly valid attacks on 4-7 validators using keys assigned on that consumer, with absent / nil / tampered / wrong-key commit signatures, amnesia (same state, other round), identical headers, other chain ids, foreign or unknown client ids, different heights, trusted height 0 or not below the header, a trusted consensus state that does not match or is older than the trusting period, a smaller trusted set, a client state for another chain, heights around the minimum evidence height, replays; and REAL ed25519-signed duplicate votes submitted through MsgSubmitConsumerDoubleVoting.ValidateBasic and the msg server: mostly valid evidence of a validator's current consumer key, with single-field mutations (other chain id incl. the provider's and another consumer's, vote B with other height / round / type / validator, tampered signature on A or B, forged address, signed by another key, identical block ids, reversed order, nil block, invalid vote type), keys a validator uses on other consumers or has replaced, heights around the consumer's minimum evidence height, unknown / unlaunched / deleted consumers, consumers sharing a chain id with different double-sign settings (tombstone on and off), headers whose validator set lacks the signer / is empty / nil, replays of the previous submission, unbonding delegations and redelegations (matured, maturing now, future, on hold), jailed / tombstoned / unbonding / removed validators",
     assumptions=PROV_ASSUME + ["A-CRYPTO: an ed25519 signature verifies under identity k's public key iff it was produced with k's private key over exactly the verified bytes (the harness signs real votes; the model records signer, chain id and intactness)",
                                "x/staking's SlashUnbondingDelegation / SlashRedelegation amount rule (entries not matured or on hold, InitialBalance x factor, truncated) is scripted after the SDK source",
-                               "NOT covered: the light-client-attack path (MsgSubmitConsumerMisbehaviour, CheckMisbehaviour, GetByzantineValidators) - see DESIGN.md"],
+                               "light-client attacks: the consumer's client store (client state, trusted consensus state) is written by the harness as core IBC would hold it; both headers use one validator set and one trusted set per submission; header timestamps are one minute before the block time; revision numbers other than the chain id's own are not exercised"],
     fields=r"^dvote\.")
+
+# C18: the provider streams again, every BeginBlock / EndBlock first executed 3 times on throw-away
+# branches of the same state and compared byte for byte (store contents, returned updates, packet
+# bytes, environment calls)
+PROPS["C18"]["streams"] = PROPS["C18"]["streams"] + [dict(name="slash@r3", quick=(3, 500), thorough=(12, 3000)),
+                                                     dict(name="epoch@r3", quick=(3, 400), thorough=(12, 2500)),
+                                                     dict(name="rewards@r3", quick=(2, 300), thorough=(8, 2000))]
+PROPS["C18"]["fields"] = r"^accum\.|^(begin|end)\.rep"
 
 # more consumers due at once than the per-block limit of the three time queues (launch, infraction
 # parameters, removal); one scripted history per seed (201..209 consumers), slow (about 3 minutes)
@@ -137,7 +145,7 @@ NOT_APPLICABLE = {
 }
 
 LEVEL_TEXT = {
-    "C07": "PARTIAL: double-voting evidence only; the light-client-attack (misbehaviour) half of the property is not modelled. Theorems (Props/C07): an accepted submission is valid (accepted_is_valid) hence every single-field mutation is rejected and changes nothing (other chain, bad signature, wrong key / forged address, same block, H/R/T or validator mismatch, too old, no client); every staking/slashing call names exactly the validator owning the signing key on that consumer; one slash with the consumer's double-sign fraction and power = last power + live unbonding/redelegating power, jail iff not jailed, jail end and tombstone per the consumer's settings; with tombstoning no later evidence of any kind punishes the validator again (tombstoned_at_most_once); other validators' records untouched (applyEffects_frame). Tie: real signed votes through the real ValidateBasic + msg server, one-step correspondence of result, stage and every staking/slashing call + Spec.C07 clauses on the implementation.",
+    "C07": "Theorems (Props/C07), light-client attacks: GetByzantineValidators returns only identities that put a genuine non-absent signature on BOTH headers (byzantine_sound), amnesia identifies nobody, every staking/slashing call names a validator owning such a key on that consumer (misb_punishes_only_double_signers), acceptance implies the consumer's chain id and client, one height not below the minimum, different headers, a matching unexpired trusted consensus state and both CometBFT commit checks (misb_accepted_only_if). Double voting: an accepted submission is valid (accepted_is_valid) hence every single-field mutation is rejected and changes nothing (other chain, bad signature, wrong key / forged address, same block, H/R/T or validator mismatch, too old, no client); every staking/slashing call names exactly the validator owning the signing key on that consumer; one slash with the consumer's double-sign fraction and power = last power + live unbonding/redelegating power, jail iff not jailed, jail end and tombstone per the consumer's settings; with tombstoning no later evidence of any kind punishes the validator again (tombstoned_at_most_once); other validators' records untouched (applyEffects_frame). Tie: real signed votes through the real ValidateBasic + msg server, one-step correspondence of result, stage and every staking/slashing call + Spec.C07 clauses on the implementation.",
     "C16": "Theorems (Props/C16, 10^18-scaled integer arithmetic = LegacyDec): one (consumer, denom) step splits the credit EXACTLY into distribution-module tokens + community-pool tokens + remaining credit; validators together never receive more than was moved for them and all but n*(tokens+1)*10^-18 of it; only current, eligible members are paid and every eligible member is; payouts monotone in consumer power and never above the exact share; over a whole AllocateTokens the three module accounts conserve every denom and credits fall by exactly what left the pool; credits are always backed by the pool, so the roll-back branch is unreachable; crediting is exact. Tie: one-step correspondence of balances, credits and every AllocateTokensToValidator / FundCommunityPool / bank call + Spec.C16 clauses on the implementation's own numbers.",
     "C19": "Theorems: a failed launch leaves exactly the pre-launch state with phase registered and spawn cleared (others untouched), the fall-back cannot fail when initial height and chain id agree, creation/update keep them in agreement, deletion all-or-nothing, removal/infraction switch/meter have no error path. Tie: block results and all-or-nothing clauses on every block of every stream, with injected failures of external calls.",
     "C08": "Theorems: double-sign never punishes; effects = jailPlan (exactly the validator owning the key, existing, not unbonded/tombstoned/jailed, consumer's own downtime parameters, mapped infraction height); acks when declined; unknown id => error ack; consumer keeps one outstanding report per validator and clears on ack. Tie: one-step correspondence incl. the calls made to staking/slashing + Spec.Slash on the implementation.",
@@ -155,7 +163,7 @@ LEVEL_TEXT = {
     "C01": "Theorems: apply_diff, accumulate_effect, applyCC_effect/engine, replication_block (any batching of packets in a consumer block ends at the provider's last set). Tie: differential run of DiffValidators/AccumulateChanges/ApplyCCValidatorChanges.",
     "C10": "Theorems: phase edges only forward (edge_forward/path_forward), ids issued in order, queue consumption conserves/limits/only due, remove/delete preconditions. Tie: one-step correspondence of the lifecycle model + Spec.Prov clauses on every implementation state.",
     "C13": "Theorems: lenKey_prefix_free, ownerOf_lenKey, prefixes distinct and iterator sites classified on REGENERATED tables. Tie: fact extractor + othersUntouched monitor.",
-    "C18": "Theorems: accumulate_order_independent (any map order, any correct sort); regenerated determinism-site table equals the audited list.",
+    "C18": "Theorems: accumulate_order_independent (any map order, any correct sort); regenerated determinism-site table equals the audited list. Tie / search for a failing input: AccumulateChanges executed 13 times per input and compared in order; every provider BeginBlock / EndBlock of the slash, epoch and rewards streams executed 3 times on throw-away branches of the same state and compared byte for byte (provider store, returned updates, packet bytes, environment calls).",
     "C04": "Theorems (all inputs): same validators, every power <= max(1, floor(s*p/100)), total exactly preserved and nobody zero when feasible, "
            "strict order by power never inverted, all equal when infeasible; set cap: at most k, no excluded eligible validator outranks an included one. "
            "Tie to code: differential run of NoMoreThanPercentOfTheSum against the model and Spec on its outputs.",
